@@ -427,13 +427,16 @@ Section Rely.
           pose proof (obp_size_lookup m a ia Ea).
           lia.
       + apply IH in H. destruct H as [H1 [H2 [H3 [H4 [H5 H6]]]]].
-        split; [|split; [|split; [|split; [|split]]]]; auto.
+        split; [|split; [|split; [|split; [|split]]]].
         * intros o i H. apply H1 in H. destruct H as [H Hn]. split; [exact H|]. intros [X|X]; [|auto].
           subst a. rewrite Ea in H. discriminate.
         * intros o i Hl Hn. apply H2; tauto.
         * intros o i h t Hl Hin Hi. destruct Hin as [Hin|Hin].
           -- subst a. rewrite Ea in Hl. discriminate.
           -- eapply H3; eauto.
+        * exact H4.
+        * exact H5.
+        * exact H6.
   Qed.
 
   Lemma add_rely_spec (m : amap (amap tx)) wl t (m' : amap (amap tx)) wl' :
